@@ -426,7 +426,12 @@ pub fn fuzz_one(t: u8, data: &[u8]) -> FuzzOutcome {
             if calls > work_bound {
                 return FuzzOutcome { kind: Some(format!("work:{}", name)), detail: format!("{}: {} allocator calls for a {}-byte input (bound {})", name, calls, data.len(), work_bound), decoded: ok, graceful_refusal: false };
             }
-            FuzzOutcome { kind: None, detail: String::new(), decoded: ok, graceful_refusal: refused > 0 }
+            if refused > 0 {
+                // the request was refused only because this harness bounds single allocations; a
+                // real allocator would have honoured any size it can satisfy
+                return FuzzOutcome { kind: Some(format!("oversized-allocation-request:{}", name)), detail: format!("{}: a single allocation of {} bytes was requested for a {}-byte input (bound 64*len + 1 MiB = {}); the decoder survived the refusal, but only because the harness refuses", name, refused, data.len(), bound), decoded: ok, graceful_refusal: true };
+            }
+            FuzzOutcome { kind: None, detail: String::new(), decoded: ok, graceful_refusal: false }
         }
     }
 }
